@@ -67,7 +67,7 @@ class C07(Engine):
             "evaluation = one output byte stream; non-trivial = the output is not empty; distinct = distinct (style, token-class sequence).")
     assumptions = ["F3 is read as the design reads it: the encoding marker is present exactly when the output contains non-ASCII text",
                    "parentheses are checked like brackets; a backslash escape outside strings hides the escaped character from the bracket count",
-                   "line breaks inside comments and url() count as line breaks of compressed output (the property exempts only custom-property values)",
+                   "line breaks inside ordinary comments and url() count as line breaks of compressed output; a preserved comment /*! .. */ is the author's text copied verbatim (C36 decides whether it is kept) and its line breaks are not counted",
                    "inputs whose source text itself contains an unbalanced bracket character inside a quoted string or an escape are outside the quantifier "
                    "for clause F2 only if the automaton's rejection is 'unbalanced'/'close_*' (the user asked for that text); see skip counters in the evidence",
                    "failing compilations, panics and timeouts are not outputs (C01 owns them) and are skipped"]
@@ -114,7 +114,10 @@ class C07(Engine):
                                         tokens=[[t["c"], t["f"]] for t in e["toks"]],
                                         expected="(rejected by the framing automaton, Trace_Framing.tla)", flow="B"))
         for k in range(0, len(events), self.chunk):
-            ctx.validate(self.trace[0], self.trace[1], events[k:k + self.chunk], on_reject=on_reject, tag=f"{tag}{k}")
+            if len(ctx.violations) >= 6:       # the verdict is settled; do not spend minutes on re-validation
+                ctx.notes.append(f"validation of the remaining events ({tag}) skipped after {len(ctx.violations)} violations")
+                return
+            ctx.validate(self.trace[0], self.trace[1], events[k:k + self.chunk], on_reject=on_reject, tag=f"{tag}{k}", max_rejects=6)
 
     def run(self, ctx):
         self.allinfo = {}
